@@ -1,0 +1,19 @@
+//go:build verif
+
+// Contracts for package tup (property C05), checked by /verif/govc. Comments only.
+// Decode of a TUP attribute set on arbitrary input: no panic, termination (the loop runs `length` rounds; a
+// huge announced count with no data behind it makes that many cheap rounds - it terminates, but slowly),
+// allocation bounded by the input (ReadBytes checks the announced length against the remaining input).
+
+package tup
+
+//@ func (*UniAttribute).Decode
+//@   requires u != nil && u.data != nil && validR(is)
+//@   let p0 = is.buf.i
+//@   let allocbudget = len(is.buf.src)
+//@   modifies is.buf.i, is.depth, mapcells(u.data)
+//@   allocates
+//@   ensures [C05] is.buf.i >= p0
+//@   ensures [C05] validR(is)
+//@   loop 0 invariant [C05] validR(is) && is.buf.i >= p0 && u != nil && u.data != nil
+//@   safety [C05]
